@@ -168,16 +168,16 @@ Fixpoint gc_leaves (ptr reg : Z) (t : ty) (rpath : list nat) (base : Z) {struct 
 (* ---------------------------------------------------------------------------------------------- structlayout *)
 Definition mkpad (s e : Z) : entry := mkE [] s e (e - s) 0 true.
 
-(* the tail of `sizes`: the last entry, when zero-sized inside a non-zero-sized struct, is shown as occupying the
-   byte the compiler adds; then padding up to the end of the struct (base + Sizeof) *)
-Fixpoint finish (out : list entry) (endz : Z) : list entry :=
+(* the tail of `sizes`: the last entry, when zero-sized inside a non-zero-sized struct (nonzero = Sizeof(typ) != 0), is
+   shown as occupying the byte the compiler adds; then padding up to the end of the struct (endz = base + Sizeof) *)
+Fixpoint finish (out : list entry) (nonzero : bool) (endz : Z) : list entry :=
   match out with
   | [] => []
   | [l] =>
-      let l' := if (e_size l =? 0) && (e_end l <? endz)
+      let l' := if (e_size l =? 0) && nonzero
                 then mkE (e_path l) (e_start l) (e_end l + 1) 1 (e_align l) (e_pad l) else l in
       if e_end l' <? endz then [l'; mkpad (e_end l') endz] else [l']
-  | e :: r => e :: finish r endz
+  | e :: r => e :: finish r nonzero endz
   end.
 
 (* sizes(typ, prefix, base, out): returns what the call appends to out.  rpath = reversed index path of typ. *)
@@ -197,7 +197,7 @@ Fixpoint lay (T : tables) (a : arch) (t : ty) (rpath : list nat) (base : Z) {str
                            else [mkE (rev (i :: rpath)) off (off + sz) sz al false] in
                padl ++ here ++ go fs' (S i) (align_up o al + sz) (pos1 + sz)
            end) fs 0%nat 0 base in
-      finish body (base + fst (sa T a t))
+      finish body (negb (fst (sa T a t) =? 0)) (base + fst (sa T a t))
   | _ => []
   end.
 Definition layout (T : tables) (a : arch) (t : ty) : list entry := lay T a t [] 0.
